@@ -314,6 +314,78 @@ theorem C31_results_stable (h : Heap) (a b c d : RConfig)
     (mergeH_result_refok table C31_table_names_nodup h a b
       (fun fs hfs => ⟨C31_table_compat fs hfs, C31_table_no_inplace fs hfs, (hin fs hfs).1, (hin fs hfs).2⟩))
 
+/-- well-formed over `h`: every field a scalar / nil / a valid map reference / a valid slice header -/
+def WF (h : Heap) (c : RConfig) : Prop := ∀ fs ∈ table, RefOK h fs.kind (rget c fs.name)
+
+theorem WF_keeps {h h' : Heap} (hk : Keeps h h') {c : RConfig} (hc : WF h c) : WF h' c :=
+  fun fs hfs => RefOK_keeps hk _ _ (hc fs hfs)
+
+theorem WF_result (h : Heap) (a b : RConfig) (ha : WF h a) (hb : WF h b) : WF (mergeH table h a b).1 (mergeH table h a b).2 :=
+  mergeH_result_refok table C31_table_names_nodup h a b
+    (fun fs hfs => ⟨C31_table_compat fs hfs, C31_table_no_inplace fs hfs, ha fs hfs, hb fs hfs⟩)
+
+theorem keeps_mergeH (h : Heap) (a b : RConfig) : Keeps h (mergeH table h a b).1 :=
+  mergeHLoop_keeps table C31_table_no_inplace h a b []
+
+/-- **Associativity on the heap**, for inputs whose slices may have any spare capacity and may
+share storage: both association orders, executed on the heap (the inner result living in the
+heap the inner call returned), denote field-wise equal configurations. -/
+theorem C31_assoc_heap (h : Heap) (a b c : RConfig) (ha : WF h a) (hb : WF h b) (hc : WF h c)
+    (hwa : WT table (deref table h a)) (hwb : WT table (deref table h b)) (hwc : WT table (deref table h c)) :
+    let m1 := mergeH table h a b
+    let l := mergeH table m1.1 m1.2 c
+    let m2 := mergeH table h b c
+    let r := mergeH table m2.1 a m2.2
+    ∀ fs ∈ table, valEq (get (deref table l.1 l.2) fs.name) (get (deref table r.1 r.2) fs.name) := by
+  intro m1 l m2 r fs hfs
+  have k1 : Keeps h m1.1 := keeps_mergeH h a b
+  have k2 : Keeps h m2.1 := keeps_mergeH h b c
+  have e1 : deref table l.1 l.2 = merge table (merge table (deref table h a) (deref table h b)) (deref table h c) := by
+    show deref table (mergeH table m1.1 m1.2 c).1 (mergeH table m1.1 m1.2 c).2 = _
+    rw [C31_heap_value_agree m1.1 m1.2 c (fun fs hfs => ⟨WF_result h a b ha hb fs hfs, WF_keeps k1 hc fs hfs⟩),
+      C31_heap_value_agree h a b (fun fs hfs => ⟨ha fs hfs, hb fs hfs⟩), deref_keeps table k1 c hc]
+  have e2 : deref table r.1 r.2 = merge table (deref table h a) (merge table (deref table h b) (deref table h c)) := by
+    show deref table (mergeH table m2.1 a m2.2).1 (mergeH table m2.1 a m2.2).2 = _
+    rw [C31_heap_value_agree m2.1 a m2.2 (fun fs hfs => ⟨WF_keeps k2 ha fs hfs, WF_result h b c hb hc fs hfs⟩),
+      C31_heap_value_agree h b c (fun fs hfs => ⟨hb fs hfs, hc fs hfs⟩), deref_keeps table k2 a ha]
+  rw [e1, e2]
+  exact C31_assoc _ _ _ hwa hwb hwc fs hfs
+
+/-- **The fold on the heap**: a chain of merges executed on the heap — each step's accumulator
+is the previous step's result, in the heap that step returned; the sources may have spare
+capacity and share storage — denotes the value-level left fold of `merge` over what the sources
+denote.  (With `C31_fold` and `C31_decode`: what `ReadConfigPaths` returns.) -/
+theorem C31_fold_heap (cs : List RConfig) : ∀ (h : Heap) (acc : RConfig), WF h acc → (∀ c ∈ cs, WF h c) →
+    deref table (foldH table h acc cs).1 (foldH table h acc cs).2 =
+      (cs.map (deref table h)).foldl (merge table) (deref table h acc) := by
+  induction cs with
+  | nil => intro h acc _ _; rfl
+  | cons c cs ih =>
+    intro h acc hacc hcs
+    have hc : WF h c := hcs c (by simp)
+    have k : Keeps h (mergeH table h acc c).1 := keeps_mergeH h acc c
+    simp only [foldH, List.map_cons, List.foldl_cons]
+    rw [ih _ _ (WF_result h acc c hacc hc) (fun x hx => WF_keeps k (hcs x (by simp [hx]))),
+      C31_heap_value_agree h acc c (fun fs hfs => ⟨hacc fs hfs, hc fs hfs⟩)]
+    congr 1
+    apply List.map_congr_left
+    intro x hx
+    exact deref_keeps table k x (hcs x (by simp [hx]))
+
+/-- non-vacuity: the zero configuration is well-formed over any heap and denotes a well-typed value -/
+example (h : Heap) : WF h rzero := by
+  intro fs hfs
+  have : rget rzero fs.name = match fs.kind with
+      | .tags => .ref none
+      | .list => .slice none
+      | k => .scalar (zeroVal k) := by
+    unfold rget rzero
+    rw [alookup_map_rspec _ table C31_table_names_nodup fs hfs]; rfl
+  rw [this]
+  cases fs.kind <;> simp [RefOK]
+
+example : WT table (deref table [] rzero) := by decide
+
 /-- Regression witness: with the pre-repair statement shape (`tagsInPlace`) the call writes
 `b`'s tags into `a`'s map. -/
 theorem C31_pure_inplace_counterexample :
